@@ -305,9 +305,6 @@ def run_check(pid, tier, seed, only, jobs, write_evidence=True):
         for v in g["violations"]:
             bykey.setdefault(v["key"], []).append(v)
         for key, vs in bykey.items():
-            if key in reported:
-                continue
-            reported.add(key)
             todo.append((n, key, vs))
 
     def try_replay(item):
@@ -324,8 +321,14 @@ def run_check(pid, tier, seed, only, jobs, write_evidence=True):
     from concurrent.futures import ThreadPoolExecutor
     with ThreadPoolExecutor(max_workers=max(1, min(jobs, 12))) as tp:
         results = list(tp.map(try_replay, todo))
+    reproduced_keys = set(key for n, key, v, path, info in results if v is not None)
     for n, key, v, path, info in results:
         ob = obs[n]
+        if key in reported:
+            continue            # one line per key: the first obligation whose witness reproduces
+        if v is None and key in reproduced_keys:
+            continue            # another obligation's witness for the same key reproduces
+        reported.add(key)
         if v is None:
             unreplayed.append(dict(obligation=n, key=key, info=str(info)[:300]))
             if ob.required:
